@@ -28,7 +28,7 @@ def plan(pid, tier, seed):
         "harness": "deps",
         "mc": mc,
         "gen": [],
-        "rand": 120 if quick else 2000,
+        "rand": 400 if quick else 4000,
         "trace": TRACE,
         "run_timeout": 6000,
     }
